@@ -317,6 +317,10 @@ fn run_case<C: GenericConfig<D, F = F>>(c: &Case, st: &mut Stats) -> Result<(), 
         let mut k = Knobs::default();
         k.witness_overrides = overrides.clone();
         k.lenient_quotient = !qdf.is_power_of_two();
+        // degenerate strategy for the lookup argument itself: shift the Sum/LDC chain so that it ends at 0
+        if ng.strat % 7 == 6 && kind_name == "looked_output" {
+            k.forge_lookup_chain_offset = true;
+        }
         let strat = match ng.strat % 6 {
             0 | 1 | 2 => "S0_honest_path",
             3 => {
@@ -342,6 +346,9 @@ fn run_case<C: GenericConfig<D, F = F>>(c: &Case, st: &mut Stats) -> Result<(), 
         st.evals(1);
         st.label(kind_name);
         st.label(strat);
+        if ng.strat % 7 == 6 && kind_name == "looked_output" {
+            st.label("S5_forged_chain_offset");
+        }
         match res {
             Err(_) => st.label("prover_panicked"),
             Ok(Err(_)) => st.label("prover_err"),
